@@ -5,15 +5,100 @@
      run ops            the abstract DOM the TreeSink documentation prescribes for the op sequence
      contract_run d ops every op is issued in a state in which the documented calling contract allows it
      rrun false ops     the executable mirror of rcdom/lib.rs at the pinned commit (Ok state | Panic site)
-     rrun true ops      the same with `self.data` repaired to `node.data` in the selectedcontent search
+     rrun true ops      the mirror of the REPAIRED rcdom/lib.rs (fix: commits fade576, 67b052e, 9df0d5d, 3dab7ed:
+                        node.data, tree-order search over HTML elements, copies with consistent parent links,
+                        replaced children detached, template contents copied)
+     clone_finite_run   at every option->selectedcontent request the option's subtree, template contents
+                        included, is finite (Dom/DomCopy.v): no template sits inside its own contents
      abs s              the model state with its parent links forgotten
      Inv s              parent n = Some p <-> n in children p, child lists duplicate free, acyclic, ... *)
 From Coq Require Import List NArith Bool.
-From HV Require Import Dom.DomSpec RcDom.RcModel RcDom.RcBasics RcDom.RcInv RcDom.RcProofs
-                       RcDom.RcSerialize RcDom.RcClone RcDom.RcContract.
+From HV Require Import Dom.DomSpec Dom.DomCopy RcDom.RcModel RcDom.RcBasics RcDom.RcInv RcDom.RcProofs
+                       RcDom.RcSerialize RcDom.RcClone RcDom.RcContract RcDom.RcCloneProofs RcDom.RcCloneFinite
+                       RcDom.RcCloneDeep.
 Import ListNotations.
 
-(* FULL STATEMENT (refuted, see C20_refines_refuted / C20_selectedcontent_refuted):
+(* ===== the repaired code: every operation, option->selectedcontent cloning included =====
+   No panic, same arena (children order, text merging, attribute merging without overwriting,
+   template contents, re-parenting, deep copies in the first selectedcontent in tree order,
+   replaced children detached), same handle table, same quirks mode; parent links, duplicate
+   freeness and acyclicity are kept.
+   The premise clone_finite_run is needed: the calling contract looks at parent chains only and
+   so does not exclude a template inserted (through a select and an option) into its own
+   contents, on which clone_with_subtree does not terminate (C20_refines_finiteness_premise_needed).
+   It holds trivially for sequences without clone requests (C20_refines_repaired_without_clone). *)
+Theorem C20_refines :
+  forall ops, contract_run init ops = true -> clone_finite_run init ops = true ->
+  exists s, rrun true ops = Ok s /\ Inv s /\ abs s = run ops.
+Proof. exact refines. Qed.
+Print Assumptions C20_refines.
+
+Theorem C20_refines_finiteness_premise_needed :
+  exists ops s,
+    contract_run init ops = true /\ clone_finite_run init ops = false /\ rrun true ops = Ok s /\
+    exists n p, In n (rkids s p) /\ rparent s n <> Some p.
+Proof. exact finiteness_premise_needed. Qed.
+Print Assumptions C20_refines_finiteness_premise_needed.
+
+Theorem C20_refines_repaired_without_clone :
+  forall ops, contract_run init ops = true -> no_clone ops = true ->
+  exists s, rrun true ops = Ok s /\ Inv s /\ abs s = run ops.
+Proof. intros ops C N. apply refines; [exact C|]. apply no_clone_finite. exact N. Qed.
+Print Assumptions C20_refines_repaired_without_clone.
+
+(* the step behind it: the repaired maybe_clone_an_option_into_selectedcontent computes
+   DomSpec.clone_option (nearest ancestor select, first selectedcontent in tree order,
+   deep copy in the same allocation order, children replaced) and keeps the invariant *)
+Theorem C20_clone_step :
+  forall s n, Inv s -> n < rsize s -> is_html (rdata s n) s_option = true ->
+  forallb (closed (S (rsize s)) (abs s)) (rkids s n) = true ->
+  exists s', rc_clone_option true s n = Ok s' /\ Inv s' /\ abs s' = clone_option (abs s) n.
+Proof. exact rc_clone_option_ok. Qed.
+Print Assumptions C20_clone_step.
+
+(* the first selectedcontent descendant (tree order) of the option's nearest ancestor select
+   receives deep copies of the option's children (equal as trees once node identities are
+   forgotten): the property refuted for the pinned commit (C20_selectedcontent_refuted) holds
+   for the repaired code.  Uses: DomSpec.copy is a deep copy (Dom/DomCopyProofs.v). *)
+Theorem C20_selectedcontent :
+  forall ops o s0 s1 n,
+    contract_run init (ops ++ [OpCloneOption o]) = true ->
+    clone_finite_run init (ops ++ [OpCloneOption o]) = true ->
+    rrun true ops = Ok s0 -> rresolve s0 o = Some n ->
+    rapply true s0 (OpCloneOption o) = Ok s1 ->
+    selectedcontent_filled s0 s1 n.
+Proof. exact selectedcontent_property_repaired. Qed.
+Print Assumptions C20_selectedcontent.
+
+Theorem C20_parent_links_repaired :
+  forall ops, contract_run init ops = true -> clone_finite_run init ops = true ->
+  exists s, rrun true ops = Ok s /\
+            (forall n p, rparent s n = Some p <-> In n (rkids s p)) /\
+            (forall p, NoDup (rkids s p)) /\
+            (forall n, ~ Anc s n n).
+Proof.
+  intros ops C F. destruct (refines ops C F) as [s [R [I _]]].
+  exists s. split; [exact R|]. split; [exact (i_parent s I)|]. split; [exact (i_nodup s I)|exact (i_acyclic s I)].
+Qed.
+Print Assumptions C20_parent_links_repaired.
+
+Theorem C20_serialize_preorder_repaired :
+  forall ops, contract_run init ops = true -> clone_finite_run init ops = true ->
+  exists s ts,
+    rrun true ops = Ok s /\
+    to_tree (S (rsize s)) (abs s) 0 = Some (T 0 Document ts) /\
+    serialize (S (length (flat_map events ts))) s 0 false = SerOk (flat_map events ts) /\
+    opens (flat_map events ts) = flat_map tree_ids ts /\
+    NoDup (flat_map tree_ids ts) /\
+    (forall y, In y (flat_map tree_ids ts) <-> Anc s 0 y).
+Proof.
+  intros ops C F. destruct (refines ops C F) as [s [R [I _]]].
+  destruct (serialize_preorder s I) as [ts P]. exists s, ts. split; [exact R|exact P].
+Qed.
+Print Assumptions C20_serialize_preorder_repaired.
+
+(* ===== the code at the pinned commit (rrun false), kept as the record of the finding =====
+   FULL STATEMENT (refuted, see C20_refines_refuted / C20_selectedcontent_refuted):
      forall ops, contract_run init ops = true -> exists s, rrun false ops = Ok s /\ abs s = run ops.
    What holds: the same for every sequence whose option->selectedcontent requests are ones
    for which the specification itself changes nothing ([clone_trivial]); in particular for
@@ -99,7 +184,7 @@ Proof. exact clone_witnesses_refine_after_repair. Qed.
 Print Assumptions C20_clone_witnesses_refine_after_repair.
 
 (* (the parent links of the copies and of the children they replace were repaired in /repo: the former
-   refutation is now a pair of positive witnesses; a TEST by vm_compute, not the invariant for cloning sequences) *)
+   refutation is now a pair of positive witnesses, instances of C20_parent_links_repaired evaluated by vm_compute) *)
 Theorem C20_parent_links_repaired_witnesses :
   links_ok_b (state_of (rrun true (w1 ++ [OpCloneOption 4]))) = true /\
   links_ok_b (state_of (rrun true (w1b ++ [OpCloneOption 4]))) = true /\
@@ -145,4 +230,13 @@ Example C20_nonvacuous :
   map n_kids (d_nodes (run ex_ops)) = [[1; 2]; []; [4; 5; 3; 10]; [6]; []; [8]; [7]; []; [12]; [11]; []; []; []] /\
   map d_value (attrs_of (data_of (run ex_ops) 2)) = [[49]; [51]]%N /\
   data_of (run ex_ops) 4 = Text [102;111;111]%N.
+Proof. vm_compute. repeat split; auto. Qed.
+
+(* non-vacuity of the clone case: on the witness of the former finding every premise of
+   C20_refines holds and the request really copies (two children arrive in the selectedcontent) *)
+Example C20_refines_nonvacuous_clone :
+  contract_run init (w1 ++ [OpCloneOption 4]) = true /\
+  clone_finite_run init (w1 ++ [OpCloneOption 4]) = true /\
+  length (kids (run (w1 ++ [OpCloneOption 4])) 3) = 2 /\
+  kids (run w1) 3 = [].
 Proof. vm_compute. repeat split; auto. Qed.
